@@ -412,10 +412,10 @@ def gen_json_values(ctx):
     for cp in cps:
         out.append(chr(cp))
     out += ["", "kty", "AQAB", "P-256", 'a"b', "a\\b", "\\u0041"]
-    for _ in range(ctx.scale(500, 20000)):
+    for _ in range(ctx.scale(500, 8000)):
         al = rng.choice(JSON_ALPHABETS) if rng.random() < 0.8 else "".join(JSON_ALPHABETS)
         out.append("".join(rng.choice(al) for _ in range(rng.randrange(0, 12))))
-    for _ in range(ctx.scale(60, 3000)):
+    for _ in range(ctx.scale(60, 1500)):
         out.append("".join(chr(rng.choice([rng.randrange(0, 0x80), rng.randrange(0x80, 0x800), rng.randrange(0x800, 0x10000),
                                             rng.randrange(0x10000, 0x110000)])) for _ in range(rng.randrange(1, 8))))
     strs = ["", "a", "é", "q\"", "\n", "\U0001F600", "kty", "\ud800"]
@@ -436,7 +436,7 @@ def gen_json_values(ctx):
         if k <= 7:
             return [val(depth + 1) for _ in range(rng.randrange(0, 4))]
         return {rng.choice(strs): val(depth + 1) for _ in range(rng.randrange(0, 4))}
-    for _ in range(ctx.scale(400, 10000)):
+    for _ in range(ctx.scale(400, 5000)):
         out.append(val(0))
     return out
 
@@ -447,7 +447,7 @@ def gen_thumb_calls(ctx):
     names = ["kty", "k", "n", "e", "crv", "x", "y", "d", "kid", "", "é", "K", "kt", "ktyy", "a\"b", "\U0001F600", "~", " "]
     svals = ["oct", "RSA", "AQAB", "P-256", "Zm9v", "", "a\"b", "back\\slash", "é", "\n", "\x7f", "\U0001F600", "\ud83d", "x" * 70]
     out = []
-    for _ in range(ctx.scale(500, 20000)):
+    for _ in range(ctx.scale(500, 8000)):
         d = {}
         for _ in range(rng.randrange(0, 7)):
             r = rng.random()
@@ -509,7 +509,7 @@ def run(ctx):
             [0, 1, 2, 3, 31, 54, 55, 56, 57, 62, 63, 64, 65, 100, 118, 119, 120, 121, 127, 128, 129, 200]
         sha_msgs = [bytes(rng.randrange(256) for _ in range(n)) for n in sha_lens]
         sha_msgs += [ref_canonical(RFC7638_EXAMPLE), ref_canonical(RFC8037_A3)]
-        sha_msgs += [bytes(rng.randrange(256) for _ in range(rng.randrange(0, 300))) for _ in range(ctx.scale(15, 2000))]
+        sha_msgs += [bytes(rng.randrange(256) for _ in range(rng.randrange(0, 300))) for _ in range(ctx.scale(15, 300))]
         for m in sha_msgs:
             ctx.note_case(("sha256", m))
             dist["sha256"] += 1
@@ -554,7 +554,7 @@ def run(ctx):
         materials.append(("rfc7638-3.1", native_from_jwk(RFC7638_EXAMPLE)))
         materials.append(("rfc8037-A.3", native_from_jwk(RFC8037_A3)))
         for crv in EC_CURVES:
-            for i in range(ctx.scale(5, 60)):
+            for i in range(ctx.scale(5, 40)):
                 materials.append(("ec-%s-%d" % (crv, i), det_ec_key(rng, crv)))
             # forced short coordinates: search until x or y (and separately d) has a leading zero octet
             found_xy, found_d, tries = 0, 0, 0
@@ -574,7 +574,7 @@ def run(ctx):
             if found_xy < want_xy:
                 ctx.notes.append("short-coordinate search for %s found only %d keys in %d tries" % (crv, found_xy, tries))
         for crv in OKP_CURVES:
-            for i in range(ctx.scale(4, 40)):
+            for i in range(ctx.scale(4, 25)):
                 materials.append(("okp-%s-%d" % (crv, i), det_okp_key(rng, crv)))
         for label, nk, j in fixture_materials():
             materials.append(("fixture:" + label, nk))
@@ -796,7 +796,7 @@ def run(ctx):
         pool = [m[1] for m in materials if (not m[0].startswith("oct-") or rng.random() < 0.15)
                 and (kty_of(m[1]) != "RSA" or rng.random() < (0.3 if ctx.quick else 1.0))] + \
                [k for k in keys_for_sets if kty_of(k) != "RSA"]
-        for _ in range(ctx.scale(60, 1500)):
+        for _ in range(ctx.scale(60, 600)):
             natives = [rng.choice(pool) for _ in range(rng.randrange(1, 6))]
             vs = []
             for nk in natives:
@@ -907,9 +907,12 @@ def run(ctx):
         ctx.violation({"kind": "correspondence-error"}, "coqc failed on a generated case file",
                       {"output": err, "no_failing_input_found": True, "broken": "case evaluation"})
     if not ok:
+        nv = len(ctx.violations)
         ctx.violation({"kind": "proof-broken"}, "props/C13.v or its closure no longer compiles",
                       {"log": log[-3000:], "no_failing_input_found": direct == 0 and not res["failing"],
                        "broken": "theorems of props/C13.v"})
+        if len(ctx.violations) > nv:        # print it first: the direct oracle may report many signatures
+            ctx.violations.insert(0, ctx.violations.pop())
     ctx.assumptions += [
         "hashlib.new(name, data).digest() is a Section variable (hashnew) with the contract 'a digest is an octet string'; in the "
         "correspondence it is instantiated by the hashlib calls recorded from the implementation",
